@@ -516,3 +516,36 @@ theorem histOK_iff (cfg : Cfg) (s : Sys) : histOK cfg s = true ↔ HistInv cfg s
     exact h i x hp
 
 end WorkflowModel.Engine
+
+namespace WorkflowModel.Engine
+open WorkflowModel RS
+
+theorem finHeadB_of {x : RunS} (h : FinHead x) : finHeadB x = true := by
+  obtain ⟨h0, t, hl, hf⟩ := h
+  unfold finHeadB
+  rw [hl]
+  simp only [List.head?_cons]
+  unfold FinishedSpec at hf
+  rcases hf with h | h | h | h <;> simp [h]
+
+/-- the executable check `oneUnfB` is implied by the invariant -/
+theorem oneUnfB_of {s : Sys} (h : OneUnf s.runs) : oneUnfB s = true := by
+  unfold oneUnfB
+  simp only [List.all_eq_true, List.mem_range]
+  intro i _ j _
+  by_cases hij : i < j
+  · simp only [hij, decide_true, Bool.not_true, Bool.false_or]
+    cases hx : s.runs[i]? with
+    | none => rfl
+    | some x =>
+      cases hy : s.runs[j]? with
+      | none => rfl
+      | some y =>
+        simp only
+        by_cases hf : x.fid = y.fid
+        · have := finHeadB_of (h i j x y hij hx hy hf)
+          simp [this]
+        · simp [hf]
+  · simp [hij]
+
+end WorkflowModel.Engine
